@@ -5,6 +5,7 @@ import (
 	"go/token"
 	"go/types"
 	"os"
+	"runtime/debug"
 	"strings"
 
 	"golang.org/x/tools/go/ssa"
@@ -67,6 +68,8 @@ type frame struct {
 	panicking bool
 	panicVal  interface{} // targetPanic
 	phitemps  []Value
+	isPkgInit bool
+	depthAtEntry int
 }
 
 func NewVM(prog *ssa.Program, cfg *Config) *VM {
@@ -316,7 +319,8 @@ func (st *State) callSSA(fn *ssa.Function, args []Value, env []Value, caller *fr
 	}
 	vm.fnCount[fn]++
 	fi := vm.info(fn)
-	fr := &frame{st: st, caller: caller, fn: fn, info: fi, regs: make([]Value, fi.nregs)}
+	fr := &frame{st: st, caller: caller, fn: fn, info: fi, regs: make([]Value, fi.nregs), depthAtEntry: st.depth}
+	fr.isPkgInit = fn.Name() == "init" && fn.Synthetic != "" && fn.Parent() == nil
 	for i, p := range fn.Params {
 		fr.regs[fi.idx[p]] = args[i]
 	}
@@ -364,6 +368,11 @@ func (fr *frame) run() {
 		r := recover()
 		tp, ok := r.(targetPanic)
 		if !ok {
+			switch r.(type) {
+			case pathEnd, engineCrash:
+			default:
+				r = engineCrash{Msg: fmt.Sprint(r), Stack: string(debug.Stack()), Fn: fr.fn.String()}
+			}
 			panic(r) // pathEnd or engine bug: propagate
 		}
 		fr.panicking = true
@@ -410,7 +419,13 @@ func (fr *frame) run() {
 			if st.steps > st.vm.Cfg.MaxSteps && st.inInit == 0 {
 				st.end("budget", "step budget exceeded")
 			}
-			switch fr.visit(ins) {
+			var k continuation
+			if st.inInit > 0 && fr.isPkgInit {
+				k = fr.visitIsolated(ins)
+			} else {
+				k = fr.visit(ins)
+			}
+			switch k {
 			case kReturn:
 				return
 			case kJump:
@@ -930,6 +945,7 @@ func (st *State) rangeIter(x Value) Value {
 		return &StrIter{S: xv}
 	case MapRef:
 		it := &MapIter{}
+		st.guardCheck(xv, false)
 		if xv.O != nil {
 			m := st.rd(xv.O).V.(*MapV)
 			for _, e := range m.Entries {
